@@ -385,8 +385,8 @@ fn single(loc: usize, dur: f64, windows: Vec<Win>, kind: Kind, size: i32, value:
 fn build_grid_case(desc: &GridDesc) -> Case {
     // line 0..3 for distances, durations twice as long
     let geo = Geo { coords: vec![(0, 0), (1, 0), (2, 0), (3, 0)], dist: Metric::Line, dur: Metric::Line, dur_scale: 2, tilt: false };
-    let v0 = VehicleSpec { start_loc: 0, start_time: 0., end_loc: desc.closed.then_some(0), end_time: None, capacity: 10, fixed: 7., per_distance: 2., per_time: 1. };
-    let v1 = VehicleSpec { start_loc: 2, start_time: 0., end_loc: (!desc.closed).then_some(3), end_time: None, capacity: 10, fixed: 100., per_distance: 1., per_time: 0.5 };
+    let v0 = VehicleSpec { start_loc: 0, start_time: 0., end_loc: desc.closed.then_some(0), end_time: None, capacity: 10, fixed: 7., per_distance: 2., per_time: 1., max_distance: None, max_duration: None, tour_size: None };
+    let v1 = VehicleSpec { start_loc: 2, start_time: 0., end_loc: (!desc.closed).then_some(3), end_time: None, capacity: 10, fixed: 100., per_distance: 1., per_time: 0.5, max_distance: None, max_duration: None, tour_size: None };
     let mut jobs = Vec::new();
     let mut visits = Vec::new();
     for (slot, at) in desc.locs.iter().enumerate() {
@@ -437,6 +437,7 @@ fn random_case(case_seed: u64) -> Option<Case> {
         multi_share: 0.3,
         layers,
         priced: true,
+        p_limits: 0.,
     };
     // the property's bound: no left-over empty tours in the state
     for _ in 0..20 {
